@@ -1699,8 +1699,20 @@ def comprehension(I, n, env):
     p.assume(z3.ForAll([j, j2], z3.Implies(z3.And(0 <= j, j < j2, j2 < res.n), sel(j) < sel(j2)),
                        patterns=[z3.MultiPattern(sel(j), sel(j2))]))
     hit_pats = [rank(i)]
-    if base.arr is not None:
+    if base.arr is not None and not z3.is_quantifier(base.arr):
         hit_pats.append(z3.Select(base.arr, i))
+    elif base.arr is not None:
+        # source is itself a mapped list (lambda array): trigger on the reads of the underlying plain arrays
+        seen, stack = set(), [z3.simplify(z3.Select(base.arr, i))]
+        while stack:
+            x = stack.pop()
+            if x.get_id() in seen or not z3.is_app(x):
+                continue
+            seen.add(x.get_id())
+            if z3.is_select(x) and x.arg(1).eq(i) and z3.is_const(x.arg(0)) and \
+                    x.arg(0).decl().kind() == z3.Z3_OP_UNINTERPRETED:
+                hit_pats.append(x)
+            stack.extend(x.children())
     p.assume(z3.ForAll([i], z3.Implies(z3.And(0 <= i, i < base.n, cond),
                                       z3.And(0 <= rank(i), rank(i) < res.n, sel(rank(i)) == i,
                                              z3.Select(res.arr, rank(i)) == elt_e)),
